@@ -35,7 +35,7 @@ def build_app(tree):
     c.set_terminate_after_run(False)
     c.add_option("glob", "g", Option.NO_VALUE)
     c.add_option("opt", "o", Option.REQUIRED_VALUE)
-    cfgs = {}
+    cfgs = {}   # node id -> CommandConfig  (+ "scratch": the re-used alias list)
     for i, nd in enumerate(tree):
         # equivalent routes to a (sub-)command configuration: add_*_config(CommandConfig), create_*(name), the context manager
         how = (zlib.crc32(key.encode()) // 7 + i) % 3
@@ -51,8 +51,15 @@ def build_app(tree):
             cc = c.create_command(txt(nd["name"])) if how == 1 else c.command(txt(nd["name"])).__enter__()
         else:
             cc = parent.create_sub_command(txt(nd["name"])) if how == 1 else parent.sub_command(txt(nd["name"])).__enter__()
-        for a in nd["aliases"]:
-            cc.add_alias(txt(a))
+        # aliases: one by one, or through set_aliases with ONE scratch list that every node of this application re-uses
+        # (the configuration must keep its own copy)
+        if (zlib.crc32(key.encode()) // 11 + i) % 3 == 0:
+            scratch = cfgs.setdefault("scratch", [])
+            scratch[:] = [txt(a) for a in nd["aliases"]]
+            cc.set_aliases(scratch)
+        else:
+            for a in nd["aliases"]:
+                cc.add_alias(txt(a))
         # the same kind is reached through different sequences of the configuration calls (the flags are a little
         # state machine: default() clears the anonymous mark, anonymous() sets both, default(False) clears both)
         route = (zlib.crc32(key.encode()) + i) % 3
@@ -296,6 +303,10 @@ def rand_tree(rng):
                 node(c)
     for nd in tree:
         nd["same_as"] = 0
+        if rng.random() < 0.15:   # names and aliases are case-sensitive: "Srv" is not "srv"
+            nd["name"] = [nd["name"][0].upper()] + nd["name"][1:]
+        if nd["aliases"] and rng.random() < 0.15:
+            nd["aliases"] = [[c.upper() for c in nd["aliases"][0]]]
     # a sub-command named like a global option (--glob / -g): option tokens after the path must still not select it
     subs = [nd for nd in tree if nd["parent"] != 0]
     if subs and rng.random() < 0.35:
@@ -327,6 +338,9 @@ def rand_line(rng, tree):
             cur = tree.index(nd) + 1
         else:
             line.append(rng.choice(words))
+    if line and rng.random() < 0.12:   # a case variant of a path token names nothing (unless the tree happens to hold it)
+        k = rng.randrange(len(line))
+        line[k] = [c.swapcase() for c in line[k]]
     for _ in range(rng.randint(0, 2)):
         line.append(rng.choice(words + [list("-g"), list("--glob"), list("--opt=v"), list("-ov"), []]))   # [] = an empty token
     if rng.random() < 0.3:   # several option tokens in a row (the first one is looked at differently from the following ones)
